@@ -646,6 +646,22 @@ def run(ctx):
         ctx.ob("R-C17.12", wj, "join-waits-for-every-other-thread", bool(jh) and bool(cur),
                "every stored handle is joined, except the calling thread's own" if (jh and cur) else "WorkerPool::join does not join the stored handles (or would join the calling thread itself)")
 
+    # ---- R-C17.13 the lock guard is the LAST field to be dropped.  Rust drops fields in declaration order; a handle whose drop
+    # is the last one of the instance releases the lock only after everything that still writes to the folder (the supervisor
+    # with the journal — its Drop flushes and syncs —, the tree, the worker pool) is gone.
+    for adt_id, owners in (("keyspace::KeyspaceInner", ("supervisor", "tree")), ("db::DatabaseInner", ("supervisor", "worker_pool", "meta_keyspace"))):
+        adt = F.adts.get(adt_id)
+        if not adt:
+            ctx.ob("R-C17.13", adt_id, "anchor-present", False, "struct %s not found" % adt_id, kind="anchor")
+            continue
+        names = [f["n"] for f in adt["variants"][0]["fields"]]
+        lock = [i for i, f in enumerate(adt["variants"][0]["fields"]) if "LockedFileGuard" in f["ty"]]
+        late = [n for n in owners if n in names and lock and names.index(n) > lock[0]]
+        ok = bool(lock) and not late
+        ctx.ob("R-C17.13", adt_id, "lock-guard-declared-after-what-writes-to-the-folder", ok,
+               "%s: the lock guard field is declared (= dropped) after %s" % (adt_id, ", ".join(owners)) if ok else
+               "%s declares its lock guard BEFORE %s: when such a handle is the last of the instance, the directory lock is released first and the journal is flushed / synced afterwards — a second opener gets in while the previous instance has not written out its journal yet" % (adt_id, ", ".join(late) or "?"))
+
     # ---- cross-cutting disciplines (rules/discipline.py)
     from .. import discipline as D
     # open/lock/marker errors surface
